@@ -40,7 +40,8 @@ def run_demo():
     mod = module_of(os.path.join(place, "x.go"))
     rel = "./" + os.path.relpath(os.path.join(wt, place), mod)
     names = "|".join(re.findall(r"^func (Test\w+)\(", open(dst).read(), re.M))
-    return sh("go1.26.8 test -vet=off -count=1 -run '^(%s)$' %s" % (names, rel), cwd=mod)
+    extra = " -test.root" if "-test.root" in demo.get("run", "") else ""
+    return sh("go1.26.8 test -vet=off -count=1 -run '^(%s)$' %s%s" % (names, rel, extra), cwd=mod)
 res = {"property": pid, "k": k, "files": files}
 shutil.copy(src + "/demo_test.go", dst)
 rc, out = run_demo(); res["demo_on_head_rc"] = rc
@@ -59,12 +60,22 @@ for f in files:
     pk.setdefault(mod, set()).add("./" + os.path.relpath(os.path.dirname(os.path.join(wt, f)), mod))
 res["package_tests"] = {}
 ok = True
+failing = {}
+def fails(mod, pkgs):
+    p = subprocess.run("go1.26.8 test -vet=off -count=1 -timeout 25m %s 2>&1 | grep -E '^(--- FAIL|FAIL|ok|panic)' | sed -E 's/\\([0-9.]+s\\)//; s/[0-9.]+s$//'" % " ".join(sorted(pkgs)), shell=True, cwd=mod, env=env, capture_output=True, text=True, timeout=2400)
+    return sorted(l.strip() for l in p.stdout.splitlines() if "FAIL" in l or "panic" in l)
 for mod, pkgs in pk.items():
     rc, out = sh("go1.26.8 build ./... && go1.26.8 test -vet=off -count=1 -timeout 25m %s" % " ".join(sorted(pkgs)), cwd=mod, timeout=2400)
     res["package_tests"][os.path.relpath(mod, wt) + ":" + ",".join(sorted(pkgs))] = rc
     if rc != 0:
-        ok = False; print("EXISTING TESTS FAIL WITH PATCH in", mod, pkgs, "\n" + out)
+        failing[mod] = (pkgs, fails(mod, pkgs))
 clean()
+for mod, (pkgs, f_patch) in failing.items():
+    f_head = fails(mod, pkgs)   # e.g. tests that need the network fail on the unchanged tree too
+    if f_head == f_patch and f_head:
+        res["package_tests"][os.path.relpath(mod, wt) + ":same-failures-as-on-unchanged-tree"] = f_head
+    else:
+        ok = False; print("EXISTING TESTS FAIL WITH PATCH in", mod, pkgs, "with patch:", f_patch, "on HEAD:", f_head)
 if not ok:
     sys.exit(1)
 out = "/verif/seeded/%s-%s" % (pid, k)
